@@ -153,7 +153,7 @@ class GatewarePHY(Elaboratable):
 
         # If we have a pulldown signal, drive it based on our pulldown controls.
         if hasattr(self._io, 'pulldown'):
-            m.d.comb += self._io.pullup.o.eq(self.dm_pulldown | self.dp_pulldown)
+            m.d.comb += self._io.pulldown.o.eq(self.dm_pulldown | self.dp_pulldown)
 
 
         #
